@@ -20,30 +20,32 @@ fn fixed_dur() -> TemporalResult<Duration> {
 
 pub fn exec(op: &str, a: &Value) -> Option<Value> {
     let st = &a["st"];
+    // operands chosen by the model (OptionsMachine!Operands): half-way between two multiples of the resolved increment
+    let o = &a["operands"];
     Some(match op {
         "Opt.PlainDate.until" => run(|| PlainDate::try_new(2020, 1, 15, iso())?.until(&PlainDate::try_new(2021, 3, 20, iso())?, arg_settings(st)?), p_duration),
         "Opt.PlainDate.since" => run(|| PlainDate::try_new(2020, 1, 15, iso())?.since(&PlainDate::try_new(2021, 3, 20, iso())?, arg_settings(st)?), p_duration),
-        "Opt.PlainTime.until" => run(|| ta()?.until(&tb()?, arg_settings(st)?), p_duration),
-        "Opt.PlainTime.since" => run(|| ta()?.since(&tb()?, arg_settings(st)?), p_duration),
-        "Opt.PlainDateTime.until" => run(|| da()?.until(&db()?, arg_settings(st)?), p_duration),
-        "Opt.PlainDateTime.since" => run(|| da()?.since(&db()?, arg_settings(st)?), p_duration),
-        "Opt.Instant.until" => run(|| Instant::try_new(IA)?.until(&Instant::try_new(IB)?, arg_settings(st)?), p_duration),
-        "Opt.Instant.since" => run(|| Instant::try_new(IA)?.since(&Instant::try_new(IB)?, arg_settings(st)?), p_duration),
+        "Opt.PlainTime.until" => run(|| arg_time(&o["a"])?.until(&arg_time(&o["b"])?, arg_settings(st)?), p_duration),
+        "Opt.PlainTime.since" => run(|| arg_time(&o["a"])?.since(&arg_time(&o["b"])?, arg_settings(st)?), p_duration),
+        "Opt.PlainDateTime.until" => run(|| arg_datetime(&o["a"])?.until(&arg_datetime(&o["b"])?, arg_settings(st)?), p_duration),
+        "Opt.PlainDateTime.since" => run(|| arg_datetime(&o["a"])?.since(&arg_datetime(&o["b"])?, arg_settings(st)?), p_duration),
+        "Opt.Instant.until" => run(|| arg_instant(&o["a"])?.until(&arg_instant(&o["b"])?, arg_settings(st)?), p_duration),
+        "Opt.Instant.since" => run(|| arg_instant(&o["a"])?.since(&arg_instant(&o["b"])?, arg_settings(st)?), p_duration),
         "Opt.PlainYearMonth.until" => run(|| PlainYearMonth::from_str("2020-01")?.until(&PlainYearMonth::from_str("2021-03")?, arg_settings(st)?), p_duration),
         "Opt.PlainYearMonth.since" => run(|| PlainYearMonth::from_str("2020-01")?.since(&PlainYearMonth::from_str("2021-03")?, arg_settings(st)?), p_duration),
         "Opt.Duration.round" => run(|| {
             // calendar units need a reference date (C09): supply one exactly when the option set names a calendar unit
             let cal = |k: &str| matches!(js::opt_s(st, k), Some("week") | Some("month") | Some("year"));
             let rel = if cal("largest") || cal("smallest") { Some(RelativeTo::PlainDate(PlainDate::try_new(2020, 1, 15, iso())?)) } else { None };
-            FS.with(|p| fixed_dur()?.round_with_provider(arg_rounding(st)?, rel, p))
+            FS.with(|p| arg_duration(&o["a"])?.round_with_provider(arg_rounding(st)?, rel, p))
         }, p_duration),
-        "Opt.PlainDateTime.round" => run(|| db()?.round(arg_rounding(st)?), p_datetime),
-        "Opt.Instant.round" => run(|| Instant::try_new(IB)?.round(arg_rounding(st)?), p_instant),
+        "Opt.PlainDateTime.round" => run(|| arg_datetime(&o["a"])?.round(arg_rounding(st)?), p_datetime),
+        "Opt.Instant.round" => run(|| arg_instant(&o["a"])?.round(arg_rounding(st)?), p_instant),
         "Opt.PlainTime.round" => run(|| {
-            // PlainTime::round takes the unit positionally; an absent / "auto" smallest unit cannot be expressed -> treated as Unit::Auto
+            // PlainTime::round takes the unit positionally; an absent smallest unit cannot be expressed -> Unit::Auto
             let u = js::opt_s(st, "smallest").map(arg_unit).unwrap_or(Unit::Auto);
             let inc = st.get("inc").and_then(|x| x.as_i64()).map(|x| x as f64);
-            tb()?.round(u, inc, js::opt_s(st, "mode").map(arg_mode))
+            arg_time(&o["a"])?.round(u, inc, js::opt_s(st, "mode").map(arg_mode))
         }, p_time),
         _ => return None,
     })
